@@ -128,6 +128,24 @@ func c07Order(e *Env) {
 		r.Check(firstCut.IsValid() && last.Pos() < firstCut, rule, fname+":decode-before-cut", w.Pos(d.Pos()), "decoding precedes every segment resolution", "a percent-decode happens at or after the first segment cut: an encoded `..` survives resolution")
 		r.Check(leading.IsValid() && leading < d.Pos(), rule, fname+":leading-slash", w.Pos(norm.Decl.Pos()), "a leading slash is ensured before decoding", "no addLeadingSlash before the decode")
 	}
+	// every return lies behind the last resolution step: an early return skips it
+	var lastCut token.Pos
+	for _, p := range cuts {
+		if p > lastCut {
+			lastCut = p
+		}
+	}
+	nRet := 0
+	ast.Inspect(norm.Decl.Body, func(n ast.Node) bool {
+		if _, isLit := n.(*ast.FuncLit); isLit {
+			return false
+		}
+		if rs, ok := n.(*ast.ReturnStmt); ok {
+			nRet++
+			r.Check(lastCut.IsValid() && rs.Pos() > lastCut, rule, fmt.Sprintf("%s:return#%d:after-resolution", fname, nRet), w.Pos(rs.Pos()), "every return of the normaliser lies behind all segment-resolution steps", "`"+nodeString(rs)+"` returns before the last dot-segment search: on that path `/./`, `/../` or a trailing `/..` (possibly produced by percent-decoding) stay in the path")
+		}
+		return true
+	})
 	var have []string
 	for s := range cuts {
 		have = append(have, s)
